@@ -590,3 +590,37 @@ mod tests {
         }
     }
 }
+
+#[cfg(feature = "verif")]
+impl ResourcePool {
+    /// Plain-data dump of the free state of this pool.
+    pub(crate) fn verif_snapshot(&self) -> crate::verif::PoolSnapshot {
+        use crate::verif::PoolSnapshot;
+        fn dump_fractions(m: &Map<ResourceIndex, ResourceFractions>) -> Vec<(u32, u32)> {
+            let mut v: Vec<(u32, u32)> = m.iter().map(|(i, f)| (i.as_num(), *f)).collect();
+            v.sort_unstable();
+            v
+        }
+        match self {
+            ResourcePool::Empty => PoolSnapshot::Empty,
+            ResourcePool::Indices(pool) => PoolSnapshot::Indices {
+                full_size: pool.full_size.total_fractions(),
+                indices: pool.indices.iter().map(|i| i.as_num()).collect(),
+                fractions: dump_fractions(&pool.fractions),
+            },
+            ResourcePool::Groups(pool) => PoolSnapshot::Groups {
+                full_size: pool.full_size.total_fractions(),
+                indices: pool
+                    .indices
+                    .iter()
+                    .map(|g| g.iter().map(|i| i.as_num()).collect())
+                    .collect(),
+                fractions: pool.fractions.iter().map(dump_fractions).collect(),
+            },
+            ResourcePool::Sum(pool) => PoolSnapshot::Sum {
+                full_size: pool.full_size.total_fractions(),
+                free: pool.free.total_fractions(),
+            },
+        }
+    }
+}
